@@ -3,7 +3,7 @@
    signals and updater); here the VALUES: a re-targeting changes nothing of a tree but the leaf targets (its skeleton), so the
    abstraction of every tree is the old one with the source renamed to the destination, and the abstract invariant is stable
    under that renaming. *)
-From KDB Require Import Util UtilProofs PropDefs PropFlags PropLink PropLinkBasics PropLinkOps PropLinkMove PropLinkTheorems PropSim PropGrow PropGrowMore.
+From KDB Require Import Util UtilProofs PropDefs PropFlags PropLink PropLinkBasics PropLinkOps PropLinkMove PropLinkTheorems PropSim PropGrow PropGrowMore PropDead.
 From KDB Require PropGrowLazyMore.
 From KDB Require PropAbs PropAbsProofs PropProofs PropCheck.
 Module A := PropAbs.
@@ -453,7 +453,7 @@ Section MoveCtor.
   Proof. unfold kill_table. destruct ot as [t|]; [|auto]. destruct (get_table w t) as [tb|]; [|auto]. destruct (t_emitting tb); auto. Qed.
 
   (* ---- move ASSIGNMENT over a destination that no binding reads ---- *)
-  Lemma moveassign_shape fuel w dst src w' :
+  Lemma moveassign_shape2 fuel w dst src w' :
     pinv w -> NOEMIT w -> (forall b lf, has_leaf w b lf -> lf_tg lf <> Some dst) ->
     step1 fn rtl fuel w (PMoveAssign dst src) = (w', None) ->
     exists s0 d0 dn sn,
@@ -477,7 +477,10 @@ Section MoveCtor.
                                                 {| ep_registry := filter (fun q => negb (Nat.eqb (fst q) (b_regid x))) (ep_registry ep); ep_next := ep_next ep |}
                                  | None => w_evps w end
       | None => w_evps w' = w_evps w end /\
-      length (w_binds w') = length (w_binds w).
+      length (w_binds w') = length (w_binds w) /\
+      (* the destination now holds the source's public change signals; the tables of its former ones are dead *)
+      (pr_about dn = pr_about s0 /\ pr_changed dn = pr_changed s0) /\
+      (forall t, (pr_changed d0 = Some t \/ pr_about d0 = Some t) -> deadt w' t).
   Proof.
     intros Hinv HNE Hnr H. cbn [step1] in H.
     destruct (lookup (w_props w) src) as [s0|] eqn:Hs; [|discriminate H].
@@ -588,7 +591,7 @@ Section MoveCtor.
     assert (Evw : w_evps w' = w_evps w4).
     { unfold w'; cbn [set_props w_evps]. pose proof (kill_table_evps wc (pr_moved d0)) as [A _]. rewrite K in A. cbn [fst] in A. rewrite A, Evc, Evb.
       unfold wa, fixtarget. destruct (pr_updater d') as [bu|]; [destruct (get_bind w5 bu)|]; reflexivity. }
-    split; [|split; [|split; [|split; [|split]]]].
+    split; [|split; [|split; [|split; [|split; [|split; [|split]]]]]].
     - intros q. unfold w', w5; cbn [set_props w_props]. rewrite !lookup_bind, P4. destruct (Nat.eqb q dst); [reflexivity|]. destruct (Nat.eqb q src); reflexivity.
     - intros t pos ser s1 Hsl. apply S4. change (slot_at wd t pos ser s1) in Hsl. apply Sk in Hsl. destruct Hsl as (sl & fr & al & Et & En).
       exists sl, fr, al. split; [rewrite <- Twa, <- T; exact Et|exact En].
@@ -627,6 +630,50 @@ Section MoveCtor.
       + rewrite Evw. exact EV4.
     - unfold w'; cbn [set_props w_binds]. rewrite Bk, L. unfold wa, fixtarget. rewrite <- L4. destruct (pr_updater d') as [bu|]; [|reflexivity].
       destruct (get_bind w5 bu); [|reflexivity]. unfold put_bind; cbn [set_binds w_binds]. apply upd_length.
+    - split; reflexivity.
+    - (* killed at the start, and nothing revives a table *)
+      intros t Ht.
+      assert (D2 : deadt w2 t).
+      { destruct Ht as [Hc|Ha].
+        - rewrite Hc in K2. apply (kill_table_kills w1 t w2 K2). apply (kill_table_exists w _ w1 t K1).
+          destruct (pi_own _ _ _ _ _ _ _ Hinv dst KChanged t) as (sl & fr & E); [exists (psigs_of d0); split; [exact Pd|exact Hc]|exact (fun z => z)|rewrite E; discriminate].
+        - apply (kill_table_dead w1 _ w2 t K2). rewrite Ha in K1. apply (kill_table_kills w t w1 K1).
+          destruct (pi_own _ _ _ _ _ _ _ Hinv dst KAbout t) as (sl & fr & E); [exists (psigs_of d0); split; [exact Pd|exact Ha]|exact (fun z => z)|rewrite E; discriminate]. }
+      pose proof (kill_table_dead w2 _ w3 t K3 D2) as D3.
+      assert (D4 : deadt w4 t).
+      { destruct (pr_updater d0) as [bd|]; [|inversion Hu; subst w4; exact D3].
+        pose proof (destroy_binding_dead w3 bd t D3) as D. rewrite Hu in D. exact D. }
+      assert (Dc : deadt wc t) by (destruct D4 as (sl & fr & E); exists sl, fr; rewrite T, Twa; exact E).
+      pose proof (kill_table_dead wc _ wd t K Dc) as (sl & fr & E). exists sl, fr. exact E.
+  Qed.
+
+  Lemma moveassign_shape fuel w dst src w' :
+    pinv w -> NOEMIT w -> (forall b lf, has_leaf w b lf -> lf_tg lf <> Some dst) ->
+    step1 fn rtl fuel w (PMoveAssign dst src) = (w', None) ->
+    exists s0 d0 dn sn,
+      lookup (w_props w) src = Some s0 /\ lookup (w_props w) dst = Some d0 /\ src <> dst /\
+      pr_value dn = pr_value s0 /\ pr_updater dn = pr_updater s0 /\ pr_value sn = pr_value s0 /\ pr_updater sn = None /\
+      (forall q, lookup (w_props w') q = if Nat.eqb q dst then Some dn else if Nat.eqb q src then Some sn else lookup (w_props w) q) /\
+      (forall t pos ser s1, slot_at w' t pos ser s1 -> slot_at w t pos ser s1) /\
+      (forall b, pr_updater d0 <> Some b ->
+                 match get_bind w b, get_bind w' b with
+                 | Some x, Some x' => b_evp x' = b_evp x /\ abs_tree (b_root x') = option_map (aren (rn src dst)) (abs_tree (b_root x))
+                 | None, None => True
+                 | _, _ => False end) /\
+      (forall b x x', pr_updater d0 <> Some b -> get_bind w b = Some x -> get_bind w' b = Some x' ->
+         b_target x' = option_map (rn src dst) (b_target x) /\ leaves (b_root x') = map (mvl src dst) (leaves (b_root x))) /\
+      match pr_updater d0 with
+      | Some bd => exists x, get_bind w bd = Some x /\ get_bind w' bd = None /\
+                     w_evps w' = match nth_error (w_evps w) (b_evp x) with
+                                 | Some ep => upd (w_evps w) (b_evp x)
+                                                {| ep_registry := filter (fun q => negb (Nat.eqb (fst q) (b_regid x))) (ep_registry ep); ep_next := ep_next ep |}
+                                 | None => w_evps w end
+      | None => w_evps w' = w_evps w end /\
+      length (w_binds w') = length (w_binds w).
+  Proof.
+    intros Hinv HNE Hnr H.
+    destruct (moveassign_shape2 fuel w dst src w' Hinv HNE Hnr H) as (s0 & d0 & dn & sn & A1 & A2 & A3 & A4 & A5 & A6 & A7 & A8 & A9 & A10 & A11 & A12 & A13 & _).
+    exists s0, d0, dn, sn. repeat (split; [assumption|]). assumption.
   Qed.
 
   Lemma grow_moveassign fuel w dst src w' :
